@@ -51,6 +51,7 @@ type funcContract struct {
 	line     int
 	// call-site directives: "callee#k" -> list of clauses
 	callRequires map[string][]*clause
+	callAssumeReq map[string]bool
 	ghostAt      []ghostUpdate
 	panicsOK     bool
 	havocOnly    bool // function is outside the subset: refutations only
@@ -467,6 +468,18 @@ func (cs *contractSet) loadFile(path, pkgPath string) error {
 			case "call":
 				// call <callee>#k requires label: expr
 				f := strings.SplitN(rest, " ", 3)
+				if len(f) == 2 && f[1] == "assume_callee_requires" {
+					// the callee's preconditions are a data-structure invariant this function cannot establish:
+					// assumed at this site and listed as an assumption in the evidence
+					if cur.callAssumeReq == nil {
+						cur.callAssumeReq = map[string]bool{}
+					}
+					cur.callAssumeReq[f[0]] = true
+					if _, ok := cur.callRequires[f[0]]; !ok {
+						cur.callRequires[f[0]] = nil
+					}
+					continue
+				}
 				if len(f) < 3 || f[1] != "requires" {
 					return fail(fmt.Errorf("bad call directive"))
 				}
